@@ -106,5 +106,5 @@ LEVEL_TEXT = ('Machine-checked theorem (Coq): for ALL non-empty lists of distinc
               'exception (one final measurement at the block stop index, reported by no kernel category). Correspondence: real circuits are built for distances 2..5 and '
               'their per-ancilla (tag, index) sequences are compared with the closed form and judged against the kernel outputs inside Coq.')
 LEVEL_NOTE = ('Trusted: Coq kernel, the ast translator, the closed form of the constructors (compared with every constructed circuit in the run), the C12 fold. '
-              'The generic schedule/flatten machinery is exercised, not proved, here. The supporting check LIBBUILD (run by this check) models construct_repetition_code_circuit as a Gallina build program tied node for node to the real constructor and proves, for every well-formed description and cycle count within the depth limit of the listing, that the unrolled Core listing carries per ancilla the tags heralded; parity^cycles (heralded; final for 0 cycles) = C13.block_tags (LibBuild_anc_tags_block); the multi-round composition (flatten + nesting per round + calibration) is modelled and tied (multi_round_nodes) but has no theorem. No axioms (Print Assumptions: closed).')
+              'The generic schedule/flatten machinery is exercised, not proved, here. The supporting check LIBBUILD (run by this check) models construct_repetition_code_circuit as a Gallina build program tied node for node to the real constructor and proves, for every well-formed description and cycle count within the depth limit of the listing, that the unrolled Core listing carries per ancilla the tags heralded; parity^cycles (heralded; final for 0 cycles) = C13.block_tags (LibBuild_anc_tags_block); the multi-round composition (flatten + nesting per round + calibration) is modelled and tied (multi_round_nodes) and LibMulti_anc_tags / LibMulti_kernel_agrees prove, for every description with gates_ok and every rounds list, that wherever the model circuit is defined its per-ancilla tag sequence is the closed form of this check and sits at the generated kernel indices (definedness of flatten is an antecedent; it is a conclusion for d in {2,3} and rounds entries 0..4). No axioms (Print Assumptions: closed).')
 TECHNIQUE = 'Coq proof (induction over the rounds list, reuse of the C12 kernel lemmas) + correspondence on constructed circuits evaluated by vm_compute'
